@@ -1,6 +1,7 @@
 package main
 
 import (
+	"go/token"
 	"fmt"
 	"go/types"
 	"strings"
@@ -100,8 +101,37 @@ func runC19(c *Ctx) {
 			_, lits := allHave(c.Facts(send).At(s), mustRe(`^select#0 == 0$|reflect\.Select\(.*\)#0 == 0$`))
 			c.Ob("C19-R5", "Feed.Send removes the found subscription unconditionally in the removeSub branch", c.Position(s.Pos()), strings.HasPrefix(t, "Feed#0.sendCases.find("), "delete("+t+") under "+lits)
 		}
+		// the active window (`cases`) shrinks on a removal only if the removed case was inside it: a subscriber already
+		// served by this Send sits behind the window, and shrinking for it drops a still-pending subscriber
+		fs := c.Facts(send)
+		nsh := 0
+		for _, b := range send.Blocks {
+			for _, ins := range b.Instrs {
+				sl, ok := ins.(*ssa.Slice)
+				if !ok || sl.High == nil {
+					continue
+				}
+				bo, ok := sl.High.(*ssa.BinOp)
+				if !ok || bo.Op != token.SUB {
+					continue
+				}
+				if k, isC := constInt(bo.Y); !isC || k != 1 {
+					continue
+				}
+				if !strings.HasPrefix(fs.tr.term(nil, sl.X, 0), "Feed#0.sendCases") {
+					continue
+				}
+				nsh++
+				idx := `Feed#0\.sendCases\.find\(.*\)`
+				c.mustStates("C19-R5", send, "shrinking of the active window after a removal", fs.At(sl), []LitReq{
+					{Name: "the window shrinks only if the removed case was found", Re: `^` + idx + ` >= 0$`},
+					{Name: "the window shrinks only if the removed case lay inside the window", Re: `^` + idx + ` < len\(` + PH + `\)$`},
+				})
+			}
+		}
+		c.Ob("C19-R5", "Feed.Send shrinks the active window at one site in the removal branch", c.FnPos(send), nsh == 1, fmt.Sprintf("%d", nsh))
 	})
-	c.Min("C19-R5", 5)
+	c.Min("C19-R5", 8)
 
 	c.Rule("C19-R4", "feedSub.Unsubscribe runs remove + close(err) exactly once (sync.Once)", func() {
 		fn := c.Fn("aqua/event:(*feedSub).Unsubscribe")
